@@ -1,4 +1,5 @@
 import FxVerif.Model.C10
+import FxVerif.Model.C10Env
 import FxVerif.Model.C10Tok
 import FxVerif.Model.Util
 /-! line-protocol driver for the C10 dispatcher model (everything goes through `runGen`, i.e. the regenerated step order,
@@ -7,6 +8,8 @@ governance-check program, closures and `decrementAllowance`):
 * `disp <kind> <method> <methodIdHex> <writer> <addr> <entries|->` → ran | blocked:readonly | blocked:disabled   (stateless)
 * `set shares <a> <n>` | `set dust <a> <n>` | `set val <tokens> <shares·10^18>` | `set allow <a> <b> <n>` | `set bal <a> <n>` | `set pool <id> <sender> <amount>` → ok
 * `h <kind> <caller> <origin> <addr> <methodIdHex> <entries|-> <method> <args…>` → `<status> <observed values>`   (stateful history)
+* `set unb <a> <n>` → ok (tokens in unbonding entries of `a`); `slash <power> <powerReduction> <pct>` → `vt=<tokens> vs=<shares>` (round 5: the
+  staking module slashes the validator between two calls — `Model/C10Env.lean`)
 * `hu …` (same arguments): the call is made in a frame that reverts afterwards and is caught → `undone <observed values>`, state unchanged
 * `tkset <token> <acct> <token balance> <ERC-20 allowance to the precompile> <coins>` → ok;  `tk <token> <fx|erc20|coin> <caller> <amount>` →
   `<ok|err> t=<token balance of the caller> a=<its allowance to the precompile>`: the regenerated ERC-20 leg (`Gen.C10Tok.erc20Leg`)
@@ -86,7 +89,7 @@ def observe (c self : Addr) (call : Call) (w : World) : String :=
   | .approve sp _ => s!"al={w.allow c sp} sa={w.shares c} sb={w.shares sp}"
   | .transferShares t _ => s!"al={w.allow c t} sa={w.shares c} sb={w.shares t}"
   | .transferFromShares f t _ => s!"al={w.allow f c} sa={w.shares f} sb={w.shares t}"
-  | .delegate _ | .undelegate _ | .redelegate _ => s!"sa={w.shares c} du={w.dust c} vt={w.vTok}"
+  | .delegate _ | .undelegate _ | .redelegate _ => s!"sa={w.shares c} du={w.dust c} vt={w.vTok} ub={w.unbonding c}"
   | .withdraw => s!"sa={w.shares c}"
   | .cancelSend _ | .increaseFee _ _ | .crossChain _ _ _ => s!"pool={showPool w.pool} pb={w.bal self}"
   | _ => "-"
@@ -100,8 +103,11 @@ def tw0 : TW := ⟨fun _ => 0, fun _ _ => 0, fun _ => 0⟩
 structure DSt where
   w : World
   t : Nat → FxVerif.Model.C10Tok.TW
+  /-- round 5: delegations with the DESTINATION validator of the histories' redelegations (10^-18 shares; that validator is
+  never slashed: the tokens that leave the source validator arrive 1 : 1) -/
+  dst : Nat → Nat := fun _ => 0
 
-def dInit : DSt := ⟨wInit, fun _ => tw0⟩
+def dInit : DSt := ⟨wInit, fun _ => tw0, fun _ => 0⟩
 
 def pairKindOf : String → Option FxVerif.Model.C10Tok.PairKind
   | "fx" => some ⟨true, true, false⟩
@@ -168,6 +174,16 @@ def step (st : World) (line : String) : World × String :=
     match nats [t, r] with
     | some [t, r] => ({ st with vTok := t, vShr := r }, "ok")
     | _ => (st, "bad-op")
+  | ["set", "unb", a, n] =>
+    match nats [a, n] with
+    | some [a, n] => ({ st with unbonding := upd st.unbonding a n }, "ok")
+    | _ => (st, "bad-op")
+  | ["slash", p, r, c] =>
+    -- the staking module slashes the validator between two calls (`Keeper.Slash` at the current height): an environment
+    -- step of the history (`EStep.slash`); the answer is the validator's bonded tokens afterwards
+    match nats [p, r, c] with
+    | some [p, r, c] => let w' := applyE st (.slash p r c); (w', s!"vt={w'.vTok} vs={w'.vShr}")
+    | _ => (st, "bad-op")
   | ["set", "nextid", n] =>
     match nats [n] with
     | some [n] => ({ st with nextId := n }, "ok")
@@ -220,6 +236,24 @@ def stepD (st : DSt) (line : String) : DSt × String :=
   | "tkset" :: r => (match stepTok st ("tkset" :: r) with | some x => x | none => (st, "bad-op"))
   | "tk" :: r => (match stepTok st ("tk" :: r) with | some x => x | none => (st, "bad-op"))
   | "tkb" :: r => (match stepTok st ("tkb" :: r) with | some x => x | none => (st, "bad-op"))
+  | ["set", "dst", a, n] =>
+    match nats [a, n] with
+    | some [a, n] => ({ st with dst := fun x => if x = a then n else st.dst x }, "ok")
+    | _ => (st, "bad-op")
+  | "h" :: _kind :: caller :: _origin :: _addr :: _mid :: _ents :: "redelegateV2" :: args =>
+    -- what leaves the source validator (`redelegateOut`, Model/C10Env.lean) arrives at the destination
+    let r := step st.w line
+    match nats [caller], nats args with
+    | some [c], some [amt] =>
+      let arrived := if r.2.startsWith "ran:ok" then redelegateOut st.w c amt * shareScale else 0
+      let dst' := fun x => if x = c then st.dst c + arrived else st.dst x
+      ({ st with w := r.1, dst := dst' }, r.2 ++ s!" d1={dst' c}")
+    | _, _ => ({ st with w := r.1 }, r.2)
+  | "hu" :: _kind :: caller :: _origin :: _addr :: _mid :: _ents :: "redelegateV2" :: _args =>
+    let r := step st.w line
+    match nats [caller] with
+    | some [c] => (st, r.2 ++ s!" d1={st.dst c}")
+    | _ => (st, r.2)
   | _ => let r := step st.w line; ({ st with w := r.1 }, r.2)
 
 def main : IO Unit := runDriver stepD dInit
